@@ -2,6 +2,7 @@
 #include "aes.cpp"
 #include "aesmode.cpp"
 #include <new>
+#include <cstddef>
 #define VF extern "C" __attribute__((noinline, used))
 
 // --- C09: single block
@@ -71,3 +72,11 @@ VF Aesmode *vf_mode_new(u8_t *key, const u8_t *iv, int isenc, u8_t type)
 VF void vf_mode_run(Aesmode *m, u8_t *block) { m->runcry(block); }
 VF void vf_mode_getiv(Aesmode *m, u8_t *out16) { memcpy(out16, m->iv, 16); }
 VF void vf_mode_setiv(Aesmode *m, const u8_t *in16) { memcpy(m->iv, in16, 16); }
+// layout facts for the frame condition (which object bytes a step may change): register and AES scratch state
+struct vf_probe : AesEncrypt { vf_probe(u8_t *k, const u8_t *iv) : AesEncrypt(k, iv) {} void runcry(u8_t *) override {} };
+VF void vf_mode_layout(u32_t *iv_off, u32_t *w_off, u32_t *size)
+{
+  *iv_off = (u32_t)offsetof(vf_probe, iv);
+  *w_off = (u32_t)((size_t)offsetof(vf_probe, crypt) + offsetof(encryaes, w));
+  *size = (u32_t)sizeof(vf_probe);
+}
